@@ -121,6 +121,29 @@ REGRESSION = [
     {'ice': 2, 'lossless': 1, 'sauce': 0, 'w': 130, 'h': 1, 'rows': [[(65, 7, 0, 0, 0)] * 100 + [(65, 7, 0, 0, 1)] * 30]},
 ]
 
+def directed_run_limit_rows():
+    """rows that sit on the 64-cell run limit of every run type: L cells that differ from both neighbours in character
+    AND attribute (an uncompressed run), then a pair sharing the character / the attribute / everything, then a tail;
+    likewise L-cell character-, attribute- and full runs followed by a cell that breaks the run in one field only"""
+    out = []
+    def diff(i): return (65 + i % 26, 1 + i % 7, (i * 3) % 8, 0, 0)
+    for L in (62, 63, 64, 65, 66, 127, 128, 129):
+        for pair in ('char', 'attr', 'full', 'none'):
+            row = [diff(i) for i in range(L)]
+            a = diff(L)
+            b = {'char': (a[0], a[1] + 1, a[2], 0, 0), 'attr': (a[0] + 1, a[1], a[2], 0, 0), 'full': a, 'none': diff(L + 1)}[pair]
+            row += [a, b, diff(L + 3), diff(L + 4)]
+            out.append({'ice': 2, 'lossless': 1, 'sauce': 0, 'w': len(row), 'h': 1, 'rows': [row]})
+        for kind in ('char', 'attr', 'full'):
+            base = (66, 3, 1, 0, 0)
+            if kind == 'char': run = [(66, 1 + i % 7, i % 8, 0, 0) for i in range(L)]
+            elif kind == 'attr': run = [(65 + i % 26, 3, 1, 0, 0) for i in range(L)]
+            else: run = [base] * L
+            for brk in ((66, 3, 1, 0, 0), (67, 3, 1, 0, 0), (66, 4, 1, 0, 0), (67, 5, 2, 0, 0)):
+                row = [diff(0)] + run + [brk, brk, diff(5)]
+                out.append({'ice': 2, 'lossless': 1, 'sauce': 0, 'w': len(row), 'h': 1, 'rows': [row]})
+    return out
+
 def exhaustive_buffers(alpha, wmax, two_fonts, chunk=1500):
     """generator: every row of width 1..wmax over alpha, packed as rows of buffers (the compressor restarts on every
     row); a last sentinel row keeps both font pages in use in every buffer"""
@@ -320,7 +343,7 @@ def leaf_cases():
     return cases, exprs
 
 def correspondence(ctx):
-    bufs = [dict(b, lossless=1, sauce=0) for b in REGRESSION]
+    bufs = [dict(b, lossless=1, sauce=0) for b in REGRESSION] + directed_run_limit_rows()[::2]
     target_rows = ctx.n(1500, 6000)
     rows = 0
     while rows < target_rows:
@@ -366,7 +389,7 @@ def search(ctx, broken):
         if isinstance(d, dict) and str(d.get('case', '')).startswith('xb '):
             try: first.append(parse_case(d['case']))
             except Exception: pass
-    first += REGRESSION
+    first += REGRESSION + directed_run_limit_rows()
     target_rows = ctx.n(15000, 100000)
     def random_buffers():
         rows = 0
